@@ -19,6 +19,7 @@ pub mod c12;
 pub mod c19;
 pub mod c20;
 pub mod c05;
+pub mod pairs;
 
 pub fn run(prop: &str, thorough: bool) -> Option<Report> {
     let tier = if thorough { "thorough" } else { "quick" };
